@@ -90,7 +90,7 @@ class AssemblyManager(object):
             for i, ref in enumerate(feature.qualifiers.get("citation", [])):
                 if ref not in references:
                     references.append(ref)
-                ref_index = references.find(ref) + 1
+                ref_index = references.index(ref) + 1
                 feature.qualifiers["citation"][i] = "{}".format(ref_index)
 
     def _annotate_assembly(self, assembly):
